@@ -185,7 +185,7 @@ fn sample_inputs() -> Vec<(&'static str, Vec<u8>)> {
 pub fn valid_streams(thorough: bool) -> Vec<ValidStream> {
     let mut out = Vec::new();
     let inputs = sample_inputs();
-    let take = if thorough { inputs.len() } else { 2 };
+    let take = if thorough { 3 } else { 2 };
     let mut push = |codec: Codec, what: String, r: Result<io::Result<Vec<u8>>, (String, String)>| {
         if let Ok(Ok(bytes)) = r {
             // keep only streams that the decoder accepts
